@@ -146,7 +146,11 @@ class ASEEngine(EngineBase):
         traj_file = os.path.join(self.exe_dir, f"{name}.traj")
         traj = Trajectory(traj_file, "w")
         msg_file.write(f"# Trajectory file is: {traj_file}")
-        dyn = self.Integrator(atoms, **self.integrator_settings)
+        integrator_settings = dict(self.integrator_settings)
+        if self.Integrator is Langevin and hasattr(self, "rgen"):
+            # the thermostat noise must come from the job's random stream
+            integrator_settings["rng"] = self.rgen
+        dyn = self.Integrator(atoms, **integrator_settings)
         atoms.calc = self.calc
         # we give the calculator object the system and order
         # information in case it is needed during force calculations
@@ -221,12 +225,18 @@ class ASEEngine(EngineBase):
             atoms = atoms[0]
         kin_old = atoms.get_kinetic_energy()
 
-        MaxwellBoltzmannDistribution(atoms, temperature_K=self.temperature)
-        kin_new = atoms.get_kinetic_energy()
+        # draw from the job's random stream, not from the global numpy state
+        MaxwellBoltzmannDistribution(
+            atoms,
+            temperature_K=self.temperature,
+            rng=getattr(self, "rgen", None),
+        )
         if vel_settings.get("zero_momentum", False):
             # TODO: should we preserve temperature or not?
             # The other engines do not bother to preserve the temperature
             Stationary(atoms, preserve_temperature=False)
+        # the kinetic energy of the velocities that are written
+        kin_new = atoms.get_kinetic_energy()
 
         conf_out = os.path.join(self.exe_dir, "genvel.traj")
         atoms.write(conf_out)
